@@ -249,3 +249,56 @@ def rooted(prog, bad):
             continue
         out.append(b)
     return out or bad
+
+
+def compare_metadata(prog, res):
+    """C10 clauses: shape (flat list of dicts) and identity/ordering.
+    Returns (bad, number of metadata lists compared)."""
+    bad = []
+    outs = node_outs(res.log)
+    ins = node_ins(res.log)
+    n_checked = 0
+    for spec in prog['nodes']:
+        nid, op = spec['id'], spec['op']
+        mn = res.model.nodes[nid]
+        if op in ('sink', 'sink_flush'):
+            real = [md for (_, _, md) in ins.get(nid, [])]
+        else:
+            real = [md for _, md in outs.get(nid, [])]
+        exp = [md for _, md in mn.out]
+        if len(real) != len(exp):
+            continue            # a value mismatch: C01's business
+        for k, (rm, em) in enumerate(zip(real, exp)):
+            n_checked += 1
+            rm_l = [] if rm is None else rm
+            if not isinstance(rm_l, list) or not all(isinstance(d, dict) for d in rm_l):
+                bad.append(('shape', nid, op, {'k': k, 'real': repr(rm)[:200]}))
+                continue
+            if [id(d) for d in rm_l] != [id(d) for d in em]:
+                bad.append(('content', nid, op, {'k': k, 'real': [d.get('id') for d in rm_l],
+                                                 'model': [d.get('id') for d in em]}))
+    return bad, n_checked
+
+
+def rooted_md(prog, bad):
+    """metadata mismatches whose node has no mismatching ancestor"""
+    badn = {b[1] for b in bad}
+    children = {}
+    for spec in prog['nodes']:
+        for u in spec.get('ups', []):
+            children.setdefault(u, []).append(spec['id'])
+        if spec['op'] == 'sink_flush':
+            children.setdefault(spec['id'], []).append(spec['target'])
+    for u, v in prog.get('extra_edges', []):
+        children.setdefault(u, []).append(v)
+    tainted, stack = set(), []
+    for n in badn:
+        stack.extend(children.get(n, []))
+    while stack:
+        n = stack.pop()
+        if n in tainted:
+            continue
+        tainted.add(n)
+        stack.extend(children.get(n, []))
+    out = [b for b in bad if b[1] not in tainted]
+    return out or bad
